@@ -5,6 +5,8 @@ import os
 import threading
 import time
 
+from hypothesis import strategies as st
+
 from vf import common, drive, gen, lockstep
 from vf.common import Violation
 from vf.ref import codec
@@ -66,7 +68,7 @@ def run_ops(case, stats=None, flavour=None):
                 else:
                     cls, fields = classify(version, rebuilt)
             before = driver.snapshot() if cls in ("malformed", "invalid", "dropped") else None
-            step = driver.line(text)
+            step = driver.line(text, raw=bytes.fromhex(op["hex"]) if "hex" in op else None)
             if step.exc is not None:
                 raise Violation(
                     f"crash.{type(step.exc).__name__}", case,
@@ -182,11 +184,35 @@ GEN = dict(
 )
 
 
+@st.composite
+def cases_with_wire_noise(draw):
+    """The generated history plus up to two lines whose BYTES carry an invalid UTF-8 sequence (line noise): the
+    reader replaces such bytes by U+FFFD, so `text` is what the gateway must see - a line that is malformed or
+    invalid with the replacement character must not become valid by losing the bytes."""
+    case = draw(gen.histories(**GEN))
+    ops = case["ops"]
+    for _ in range(draw(st.integers(0, 2))):
+        lines = [i for i, op in enumerate(ops) if op["op"] == "line" and "hex" not in op and "\n" not in op["text"] and len(op["text"]) < 400]
+        if not lines:
+            break
+        i = draw(st.sampled_from(lines))
+        raw = ops[i]["text"].encode("utf-8")
+        last = raw.rfind(b";") + 1
+        pos = draw(st.sampled_from([0, 1, last, last, len(raw)])) if draw(st.booleans()) else draw(st.integers(0, len(raw)))
+        junk = draw(st.sampled_from([b"\xff", b"\xfe", b"\xc3", b"\xe2\x82", b"\x80", b"\xf0\x9f"]))
+        noisy = raw[:pos] + junk + raw[pos:]
+        text = noisy.decode("utf-8", "replace")
+        if "\n" in text:
+            continue
+        ops.insert(draw(st.integers(i, len(ops))), {"op": "line", "text": text, "hex": noisy.hex()})
+    return case
+
+
 def _shard(args):
     seed_value, n = args
     common.setup_path()
     stats = common.Stats()
-    common.run_given(stats, gen.histories(**GEN), lambda c: run_ops(c, stats), n, seed_value, shrink=False)
+    common.run_given(stats, cases_with_wire_noise(), lambda c: run_ops(c, stats), n, seed_value, shrink=False)
     out = []
     for v in stats.violations:
         vv = minimise(Violation(v["clause"], v["case"], v["detail"]))
